@@ -74,7 +74,7 @@ class C06(Sim):
             "non-trivial = >= 2 meshes alive and >= 2 transform/edit calls")
     FAULT_KINDS = ["aliasing_schedule", "reject"]
     PROBES = ["merge_same_twice", "merge_result_edited", "copy_edited", "source_edited_after_copy", "open_ring", "boundary_producer",
-              "subdivision_producer", "int_coordinates", "inverse_pair", "flatten", "normalize", "load_producer", "inplace_edit", "copy_connectivity", "elem_edit", "cloud_in_merge", "copy_of_warm_source", "attribute_attached", "attr_edit", "class_wider_than_content"]
+              "subdivision_producer", "int_coordinates", "inverse_pair", "flatten", "normalize", "load_producer", "inplace_edit", "copy_connectivity", "elem_edit", "cloud_in_merge", "copy_of_warm_source", "attribute_attached", "attr_edit", "class_wider_than_content", "orig_is_a_vertex"]
     QUICK_RUNS = 3000
     THOROUGH_RUNS = 300000
     BLOCK = 25
@@ -363,6 +363,11 @@ class C06(Sim):
         elif op == "scale":
             ev["s"] = r.choice([0.5, 2.0, -1.5, 0.1, 3.0, 0.25])
             ev["orig"] = self._vec(r, -2, 2) if r.chance(0.5) else None
+            if r.chance(0.25):
+                # the fixed point is a vertex object of a mesh of the pool (this one or another): "scale about that corner"
+                u = r.choice(sorted(self.pool))
+                if len(self.ref[u].P):
+                    ev["orig_from"] = [u, r.below(len(self.ref[u].P))]
         elif op == "scale_xyz":
             ev["f"] = [r.choice([0.5, 2.0, 1.0, -1.0, 3.0]) for _ in range(3)]
             ev["orig"] = self._vec(r, -2, 2)  # always explicit: the docstring and the code disagree on the default fixed point
@@ -373,6 +378,8 @@ class C06(Sim):
             ev["v"] = self._vec(r)
             ev["angles"] = [round(r.uniform(-3, 3), 3) for _ in range(3)]
             ev["s"] = r.choice([0.5, 2.0, 4.0, 0.125, -2.0])
+            # the fixed point, when given, is ONE caller object handed to both calls
+            ev["orig"] = self._vec(r, -2, 2) if ev["kind"] != "translate" and r.chance(0.5) else None
         elif op == "bad_call":
             ev["what"] = r.choice(["rotate_two_angles", "rotate_bad_matrix", "translate_2d", "rotate_string"])
         elif op == "elem_edit":
@@ -411,6 +418,8 @@ class C06(Sim):
         if ev["t"] not in self.pool:
             return False
         rf = self.ref[ev["t"]]
+        if ev.get("orig_from") and (ev["orig_from"][0] not in self.pool or ev["orig_from"][1] >= len(self.ref[ev["orig_from"][0]].P)):
+            return False
         if ev["op"] in ("rebind_vertex", "inplace_edit") and ev["i"] >= len(rf.P):
             return False
         if ev["op"] in ("inplace_edit", "elem_edit") and not self._inplace_ok(ev["t"]):
@@ -580,8 +589,13 @@ class C06(Sim):
             exp = [list(og + R @ (np.array(p) - og)) for p in P]
         elif op == "scale":
             orig = None if ev["orig"] is None else V(ev["orig"])
-            o = call(T.scale, mesh, ev["s"], orig)
             og = [0.0] * 3 if ev["orig"] is None else ev["orig"]
+            if ev.get("orig_from"):
+                u, k_ = ev["orig_from"]
+                orig = self.pool[u].vertices[k_]
+                og = [float(x) for x in self.ref[u].P[k_]]
+                self.probes["orig_is_a_vertex"] += 1
+            o = call(T.scale, mesh, ev["s"], orig)
             exp = [[og[k] + ev["s"] * (p[k] - og[k]) for k in range(3)] for p in P]
         elif op == "scale_xyz":
             orig = None if ev["orig"] is None else V(ev["orig"])
@@ -623,9 +637,11 @@ class C06(Sim):
                 o = call(lambda: T.translate(T.translate(mesh, V(ev["v"])), V([-x for x in ev["v"]])))
             elif kind == "rotate":
                 R = rot_matrix("euler", ev["angles"])
-                o = call(lambda: T.rotate(T.rotate(mesh, np.array(R)), np.array(R.T)))
+                c0 = None if ev.get("orig") is None else V(ev["orig"])
+                o = call(lambda: T.rotate(T.rotate(mesh, np.array(R), c0), np.array(R.T), c0))
             else:
-                o = call(lambda: T.scale(T.scale(mesh, ev["s"]), 1.0 / ev["s"]))
+                c0 = None if ev.get("orig") is None else V(ev["orig"])
+                o = call(lambda: T.scale(T.scale(mesh, ev["s"], c0), 1.0 / ev["s"], c0))
             exp = P
             clause = "inverse-pair-restores"
         elif op == "elem_edit":
